@@ -5,7 +5,7 @@ from hypothesis import strategies as st
 
 from .. import gen
 from ..ref import der as R
-from ..runner import run_hypothesis, exc_sig
+from ..runner import run_hypothesis, exc_sig, srepr
 
 from ecdsa import util as U
 from ecdsa import der as D
@@ -42,8 +42,10 @@ def _edge(n, v):
 
 
 def check_enc(ctx, n, r, s, enum=False):
+    J = lambda v: v if v.bit_length() < 8000 else hex(v)      # huge values travel as hex strings
+    n, r, s = (int(v, 16) if isinstance(v, str) else v for v in (n, r, s))
     l = olen(n)
-    case = {"kind": "enc", "n": n, "r": r, "s": s}
+    case = {"kind": "enc", "n": J(n), "r": J(r), "s": J(s)}
     ctx.case_sample(case)
     ctx.ev(3)
     try:
@@ -70,7 +72,7 @@ def check_enc(ctx, n, r, s, enum=False):
         if enum:
             ctx.nontrivial_enum()
         else:
-            ctx.nontrivial(("enc", n, r, s))
+            ctx.nontrivial(("enc", J(n), J(r), J(s)))
     else:
         ctx.event("enc:plain")
 
@@ -116,6 +118,8 @@ def _wrap(data, mode):
     if mode == 2:
         k = len(data) % 4
         if k == 0:
+            if len(data) % 3 == 0 and len(data) >= 6:
+                return memoryview(bytearray(data)).cast("B", shape=[len(data) // 3, 3])     # 2-D view
             return memoryview(bytearray(data))
         if k == 1:
             return memoryview(bytearray(data)).cast("b")            # signed char view
@@ -193,18 +197,18 @@ def check_der_dec(ctx, n, data, mode=0, canonical_of=None):
     except D.UnexpectedDER:
         got = ("bad",)
     except Exception as e:
-        ctx.fail("sigdecode_der/exception/%s" % exc_sig(e), case, "%r; reference %r" % (e, want))
+        ctx.fail("sigdecode_der/exception/%s" % exc_sig(e), case, "%s; reference %s" % (srepr(e), srepr(want)))
         return
     if want[0] == "ok":
         ctx.event("derdec:canonical")
         if got != want:
-            ctx.fail("sigdecode_der/rejected-or-wrong-canonical", case, "%r vs %r" % (got, want))
+            ctx.fail("sigdecode_der/rejected-or-wrong-canonical", case, "%s vs %s" % (srepr(got), srepr(want)))
     else:
         ctx.event("derdec:non-canonical")
         ctx.nontrivial(("derdec", data))
         if got[0] == "ok":
             ctx.fail("sigdecode_der/accepted-non-canonical/%s" % want[1].replace(" ", "-"), case,
-                     "decoded %r; reference: %s" % (got[1:], want[1]))
+                     "decoded %s; reference: %s" % (srepr(got[1:]), srepr(want[1])))
 
 
 def boundary_vals(n):
@@ -306,6 +310,9 @@ def run_unit(ctx, name, **kw):
                 seeds.append((n, R.enc_sig(r % n, s % n)))
         big = (1 << 1100) - 1
         seeds.append((big, R.enc_sig(big - 1, big // 3)))          # SEQUENCE body of 280 bytes: length 82 01 18
+        giant = 256 ** 33000 - 189                                 # INTEGERs of 33000 bytes: three-octet lengths
+        check_enc(ctx, giant, giant - 1, giant - 2)
+        check_enc(ctx, giant, 1, giant // 2)
         seen = set()
         for n, seed in seeds:
             check_der_dec(ctx, n, seed)
